@@ -497,6 +497,42 @@ impl Prop for C06 {
                 );
             }
             obs.hit("delivery_probe");
+
+            // 2d. the internal Signal event: k machines signal on the same NormalSent, every machine
+            // declares Signal -> 1 with probability 1. One signaller: everybody else moves; two or
+            // more: everybody moves (the documented signalling rule)
+            let k = 1 + (v.trans.len() + v.trans[0].0) % 4;
+            let signaller = MachineSpec {
+                allowed_padding_packets: u64::MAX,
+                max_padding_frac: Fx(0.0),
+                allowed_blocked_microsec: 0,
+                max_blocking_frac: Fx(0.0),
+                states: vec![
+                    StateSpec { trans: vec![(3, vec![(maybenot::constants::STATE_SIGNAL, Fs(1.0))]), (12, vec![(1, Fs(1.0))])], ..StateSpec::default() },
+                    StateSpec::default(),
+                ],
+            };
+            let listener = MachineSpec {
+                states: vec![StateSpec { trans: vec![(12, vec![(1, Fs(1.0))])], ..StateSpec::default() }, StateSpec::default()],
+                ..signaller.clone()
+            };
+            // the listener sits before, between or after the signallers
+            let pos = v.trans[0].0 % (k + 1);
+            let mut specs2: Vec<MachineSpec> = (0..k).map(|_| signaller.clone()).collect();
+            specs2.insert(pos, listener);
+            let ms = build_machines(&specs2).unwrap_or_else(|e| panic!("signal probe machines rejected: {e}"));
+            let mut run = FwRun::new(&case, ms, None).map_err(|e| Failure { signature: "framework-new-rejects-validated-machines".into(), detail: e })?;
+            let rec = run.call(&Call { clock: Clock::Add(1), events: vec![Ev::NormalSent] });
+            for (i, m) in rec.snap.machines.iter().enumerate() {
+                let want = if i == pos || k >= 2 { 1 } else { 0 };
+                if m.state != want {
+                    return fail(
+                        "certain-signal-transition-not-taken",
+                        format!("{k} machine(s) signal on one NormalSent, listener at index {pos}, every machine declares Signal -> 1 with probability 1: machine {i} is in state {}, expected {want}", m.state),
+                    );
+                }
+            }
+            obs.hit("signal_delivery_probe");
         }
 
         // 3. framework level: the sampled target is the dispatched one
@@ -564,7 +600,7 @@ impl Prop for C06 {
     }
 
     fn required_classes() -> Vec<&'static str> {
-        vec!["dyadic_exact", "non_dyadic_tolerance", "sum_exactly_one", "pseudo_state_target", "vector_rejected_by_validation", "decoded_state_checked", "decoded_event_slots_checked", "delivery_probe"]
+        vec!["dyadic_exact", "non_dyadic_tolerance", "sum_exactly_one", "pseudo_state_target", "vector_rejected_by_validation", "decoded_state_checked", "decoded_event_slots_checked", "delivery_probe", "signal_delivery_probe"]
     }
 
     fn assumptions() -> Vec<&'static str> {
